@@ -184,7 +184,7 @@ theorem parsedInstr_of_wellFormed (i : Instruction) (hw : wellFormed i = true)
 gate parameters / a trailing frame expression -/
 def apiKind : Instruction → Bool
   | .gate _ | .setFrequency _ | .setPhase _ | .setScale _ | .shiftFrequency _ | .shiftPhase _
-  | .delay _ => true
+  | .delay _ | .capture _ | .pulse _ => true
   | .rawCapture r => r.memoryReference.name != "i"
   | i => plainKind i
 
@@ -200,6 +200,8 @@ def normInstr : Instruction → Instruction
   | .shiftPhase s => .shiftPhase ⟨s.frame, norm s.phase⟩
   | .delay d => .delay { d with duration := norm d.duration }
   | .rawCapture r => .rawCapture { r with duration := norm r.duration }
+  | .capture c => .capture { c with waveform := normInvocation c.waveform }
+  | .pulse p => .pulse { p with waveform := normInvocation p.waveform }
   | i => i
 
 theorem slotOf_normInstr (i : Instruction) : slotOf (normInstr i) = slotOf i := by
@@ -222,6 +224,15 @@ theorem all_finiteLits (ps : List PExpr) (h : ps.all exprOk = true) : ps.all fin
   rw [List.all_eq_true] at h ⊢
   intro e he
   exact exprOk_finiteLits e (h e he)
+
+theorem invOk_of_wellFormed (F : NumFmt) (w : WaveformInvocation) (hw : QV.C04.invocationOk w = true)
+    (hn : (w.parameters.all fun kv => numTokOk F kv.2) = true) : InvOk F w := by
+  simp only [QV.C04.invocationOk, Bool.and_eq_true, distinctKeys, decide_eq_true_eq] at hw
+  refine ⟨hw.1.1.2, hw.1.2, ?_, fun kv hkv => List.all_eq_true.mp hn kv hkv⟩
+  intro kv hkv
+  have := List.all_eq_true.mp hw.2 kv hkv
+  simp only [Bool.and_eq_true] at this
+  exact exprOk_finiteLits _ this.2
 
 /-- the per-kind lemmas, dispatched for API-built instructions -/
 theorem rt_of_apiKind (F : NumFmt) (d : Nat) (i : Instruction) (hw : wellFormed i = true)
@@ -268,6 +279,16 @@ theorem rt_of_apiKind (F : NumFmt) (d : Nat) (i : Instruction) (hw : wellFormed 
     simp only [hasPlaceholder] at hp
     simp only [numTokInstr, Bool.and_eq_true] at hn
     exact rt_delay_norm F d dl (all_noPlaceholder_of _ hw.2 hp) (exprOk_finiteLits _ hw.1) hn.1 hn.2 hd
+  | capture c =>
+    simp only [wellFormed, Bool.and_eq_true] at hw
+    simp only [hasPlaceholder] at hp
+    simp only [numTokInstr] at hn
+    exact rt_capture_norm F d c (frameOk_of _ hw.1.1 hp) (invOk_of_wellFormed F _ hw.1.2 hn) hd
+  | pulse c =>
+    simp only [wellFormed, Bool.and_eq_true] at hw
+    simp only [hasPlaceholder] at hp
+    simp only [numTokInstr] at hn
+    exact rt_pulse_norm F d c (frameOk_of _ hw.1 hp) (invOk_of_wellFormed F _ hw.2 hn) hd
   | rawCapture r =>
     simp only [wellFormed, Bool.and_eq_true, bne_iff_ne, ne_eq] at hw
     simp only [hasPlaceholder] at hp
@@ -279,53 +300,6 @@ theorem rt_of_apiKind (F : NumFmt) (d : Nat) (i : Instruction) (hw : wellFormed 
       | (simp [apiKind, plainKind] at hk; done)
       | (exact rt_of_provedKind F d _ (parsedInstr_of_wellFormed _ hw hp (by simpa [apiKind] using hk))
           (plainKind_provedKind (by simpa [apiKind] using hk)) hn hd)
-
-/-! ## re-adding a slot-preserving image of a listing -/
-
-theorem upsert_map (f : Instruction → Instruction) (hf : ∀ i, slotOf (f i) = slotOf i)
-    (l : List Instruction) (i : Instruction) : upsert (l.map f) (f i) = (upsert l i).map f := by
-  induction l with
-  | nil => rfl
-  | cons x xs ih =>
-    simp only [List.map_cons, upsert, hf]
-    split <;> simp [ih]
-
-/-- the image of every container -/
-def mapProg (f : Instruction → Instruction) (p : Prog) : Prog := fun r => (p r).map f
-
-theorem add_map (f : Instruction → Instruction) (hf : ∀ i, slotOf (f i) = slotOf i) (p : Prog) (i : Instruction) :
-    (mapProg f p).add (f i) = mapProg f (p.add i) := by
-  funext r
-  simp only [Prog.add, mapProg, hf]
-  split
-  · simp only [addAt]
-    split
-    · simp
-    · exact upsert_map f hf _ _
-  · rfl
-
-theorem foldl_add_map (f : Instruction → Instruction) (hf : ∀ i, slotOf (f i) = slotOf i)
-    (xs : List Instruction) (p : Prog) :
-    (xs.map f).foldl Prog.add (mapProg f p) = mapProg f (xs.foldl Prog.add p) := by
-  induction xs generalizing p with
-  | nil => rfl
-  | cons x xs ih =>
-    simp only [List.map_cons, List.foldl_cons]
-    rw [add_map f hf p x]
-    exact ih (p.add x)
-
-/-- building from a slot-preserving image of a list = the image of the built containers -/
-theorem build_map (f : Instruction → Instruction) (hf : ∀ i, slotOf (f i) = slotOf i) (xs : List Instruction) :
-    build (xs.map f) = mapProg f (build xs) := by
-  have := foldl_add_map f hf xs Prog.empty
-  have he : mapProg f Prog.empty = Prog.empty := by funext r; simp [mapProg, Prog.empty]
-  rw [he] at this
-  exact this
-
-theorem listing_mapProg (f : Instruction → Instruction) (p : Prog) :
-    (mapProg f p).listing = p.listing.map f := by
-  simp [Prog.listing, mapProg]
-
 
 theorem apiKind_provedKind {i : Instruction} (h : apiKind i = true) : provedKind i = true := by
   cases i <;> simp_all [apiKind, plainKind, provedKind]
